@@ -73,9 +73,14 @@ func (m *c13Mock) Ping(ctx context.Context) error {
 	if c.Cancel != nil && c.Cancel.At == k && c.Cancel.Phase == "before" {
 		m.markCancel(k)
 	}
-	if ctx.Err() != nil {
-		// like the real client: a request on a finished context fails with that context's error
-		return wrapError(ctx.Err(), "waiting PINGRESP")
+	m.mu.Lock()
+	parentCancelled := m.cancelledAt >= 0
+	m.mu.Unlock()
+	if parentCancelled {
+		// like the real client: a request on a cancelled context fails with that context's error.
+		// (Only the parent's cancellation counts: the per-ping deadline must not turn an answered
+		// ping into a late one when the machine is busy - the script decides the outcome.)
+		return wrapError(context.Canceled, "waiting PINGRESP")
 	}
 	if k >= len(c.Outcomes) {
 		// beyond the script: everything is answered; tell the harness that KeepAlive is still going
